@@ -22,6 +22,10 @@ type c12Input struct {
 	Shape string `json:"shape"` // random | run | period | text | mixed
 	Seed  uint32 `json:"seed"`
 	Level int    `json:"level"`
+	// Reload (encoders only): the levels reach an existing profile through a configuration update
+	// (it had PrevLevel before) instead of a freshly created service
+	Reload    bool `json:"reload,omitempty"`
+	PrevLevel int  `json:"prevLevel,omitempty"`
 }
 
 func (in c12Input) bytes() []byte {
@@ -128,6 +132,8 @@ func genC12Input(maxSize int) func(t *rapid.T) c12Input {
 			Shape: rapid.SampledFrom([]string{"random", "run", "period", "text", "mixed", "text", "stream", "magic"}).Draw(t, "shape"),
 			Seed:  rapid.Uint32().Draw(t, "seed"),
 			Level: rapid.IntRange(-1, 12).Draw(t, "level"),
+			Reload:    rapid.IntRange(0, 2).Draw(t, "reload") == 0,
+			PrevLevel: rapid.IntRange(0, 12).Draw(t, "prevLevel"),
 		}
 	}
 }
@@ -152,6 +158,14 @@ func execC12Encode(in c12Input) *vstat.Outcome {
 	data := in.bytes()
 	srv := compress.NewService()
 	srv.SetLevels(map[string]int{"gzip": in.Level, "br": in.Level})
+	if in.Reload {
+		// the way a running instance gets its levels: the profile exists (with other levels) and a
+		// configuration update changes them
+		cs := compress.NewServices(nil)
+		cs.Reset([]compress.CompressOption{{Name: "c12", Levels: map[string]int{"gzip": in.PrevLevel, "br": in.PrevLevel}}})
+		cs.Reset([]compress.CompressOption{{Name: "c12", Levels: map[string]int{"gzip": in.Level, "br": in.Level}}})
+		srv = cs.Get("c12")
+	}
 	// Several bodies are encoded first and verified afterwards: a stream handed
 	// out by an encoder must stay valid while later encode calls run.
 	bodies := [][]byte{data}
@@ -222,6 +236,9 @@ func execC12Encode(in c12Input) *vstat.Outcome {
 	out.Class("shape_" + in.Shape)
 	if in.Level < 0 || in.Level > 11 {
 		out.Class("level_out_of_range")
+	}
+	if in.Reload {
+		out.Class("levels_set_by_a_configuration_update")
 	}
 	if in.Size >= 65536 {
 		out.Class("size>=64KiB")
